@@ -28,7 +28,7 @@ for _pid, _txt, _note in [
      "Bounds: descriptor text <= 6 (8) symbolic characters, mixture body <= 4 (5), one variant at a time, token chemistry concrete. Trusted: CPython's number printing contract (float(repr(x)) == x; printed numbers contain no scanner characters), RDKit for atoms."),
     ("C02", "SmilesToken on symbolic slot sequences (K <= 7 quick / 9 thorough; 1-3 descriptors at fixed positions, all other slots symbolic over 'C ( ) = #', SMILES validity assumed as a z3 precondition): per path z3 proves binding atom and bond order equal an independent OpenSMILES reference binder (cross-checked against RDKit with dummy atoms), plus descriptor-level (symbol, id digits, weights, list totals) and structure-level templates (terminals, tokens, weights, family and parameter order).",
      "Bounds: K, ring closures and bracket / two-letter atoms only through concrete templates. Trusted: RDKit as the meaning of SMILES, numeral-atom contract."),
-    ("C04", "Shared gen-driver: real Molecule.generate with symbolic weights, symbolic drawn targets and all rng.choice outcomes on 15 skeletons (N = 2 units per block quick, 3 thorough); every attach_other call is checked for range, openness, conjugation rule (harness formula), bonded atoms and bond order, list bookkeeping; final inter-residue bonds = recorded attachments.",
+    ("C04", "Shared gen-driver: real Molecule.generate with symbolic weights, symbolic drawn targets and all rng.choice outcomes on the skeleton list of checks/gendrive.py (21 small molecules; N = 2 units per block quick, 3 thorough); every attach_other call is checked for range, openness, conjugation rule (harness formula), bonded atoms and bond order, list bookkeeping; final inter-residue bonds = recorded attachments.",
      "Bounds: skeleton list, N units per block, weights in {0} u [1e-6,1e6]. Stubs: draw_mw (nondeterministic real), embed/UFF (zero conformer), numpy shim, Generator.choice contract. Chemistry assertions are concrete per path; the solver decides which paths exist."),
     ("C05", "Same runs as C04: per finished path residues partition the atoms, are atom-by-atom identical to the token text parsed independently (RDKit with dummy atoms), form a tree with residues-1 bonds, sanitise, carry the written hydrogen counts, and masses add up.", "As C04."),
     ("C06", "Same runs as C04 on the closed skeletons: no path ends in an exception, unwinding bound holds, result fully generated, each descriptor bonded exactly once, element order, once-only tokens, >= 1 repeat unit per block, exactly one bond between consecutive elements, end groups are leaves.", "As C04; well-posedness is by construction of the skeleton list."),
@@ -46,12 +46,12 @@ for _pid, _txt, _note in [
     ("C17", "Real StochasticAtomGraph.generate with symbolic weights compared with a graph built independently from the parsed structure and RDKit's reading of each token (descriptors as dummy atoms): nodes (element, charge, aromaticity), static edges, stochastic / termination / transition edge multisets, weight attributes as z3 terms.",
      "Structure is concrete per molecule; only weights are quantified (weak use of the solver, kept because offsets / missing edge classes / wrong weight attributes are realistic changes). Known finding: edges of descriptors with a transition list."),
     ("C18", "Real AtomGraph.generate on Schulz-Zimm skeletons with every rng.choice outcome explored, the draw per (Mw, Mn) key a fresh real and weights symbolic: whole residues (contiguous id blocks mapping onto a token's atoms and internal bonds), inter-residue bonds follow non-static graph edges with their bond order, tree, sanitisation, bounded size, same stream => same molecule.",
-     "Bounds: 6 skeletons, 2-3 units per block. rng threshold 1e-200 for the code's EPSILON = 1e-300. Draw stubbed."),
-    ("C19", "Real get_ensemble_prob with each block's CDF an uninterpreted monotone function (fresh real per distinct argument) and symbolic start weights: the returned term is proved equal to prod_b (F_b(n m) - F_b((n-1) m)) for n = 1..2 (3) units per block on 6 skeletons (prefix / end-group start, one / two blocks, connector, all six families' prob_mw plumbing); foreign molecule -> 0; renumbered SMILES -> same term.",
+     "Bounds: 8 skeletons, 2-3 units per block (one more in the thorough tier). rng threshold 1e-200 for the code's EPSILON = 1e-300. Draw stubbed."),
+    ("C19", "Real get_ensemble_prob with each block's CDF an uninterpreted monotone function (fresh real per distinct argument) and symbolic start weights: the returned term is proved equal to prod_b (F_b(n m) - F_b((n-1) m)) for n = 1..2 (3) units per block on 8 skeletons (prefix / end-group start, one / two blocks, connector, all six families' prob_mw plumbing); foreign molecule -> 0; renumbered SMILES -> same term.",
      "Bounds: linear chains of one directed repeat unit, n <= 2 (3), 2-3 renumberings (samples). Known findings: symmetric tokens / symmetric molecules (embedding enumeration)."),
     ("C20", "Decidable core: all histories of <= 2 (3) get_assignment_class calls over {None, A, B}^2 with the reader replaced by a recorder (object returned was built from exactly the requested files); get_type_assignments with a symbolic match relation (4 rules x 2 (3) atoms) and atom permutation (longest rule wins, first among equals, FfAssignmentError with the partial assignment, commutes with numbering); refusal of partially generated molecules; concrete side check of type masses against the element of each rule.",
      "Outside: RDKit's SMARTS semantics, completeness of the bundled rule set. Known finding: opls_420 (thiolate sulfur typed as oxygen) in the bundled data."),
-    ("C16", "Real gen_reaction_graph with symbolic weights on 21 (31) molecules: node set, per-node sums = 1 or absent for prob / term_prob / trans_prob, every edge value equals the reference law of C08 as a polynomial identity, edge sets = admissible partners.", "Bounds: molecule list; weights in {0} u [1e-6,1e6]; all-zero admissible weights at a hand-over outside."),
+    ("C16", "Real gen_reaction_graph with symbolic weights on the skeleton list plus test strings and mixed-bond-order molecules: node set, per-node sums = 1 or absent for prob / term_prob / trans_prob, every edge value equals the reference law of C08 as a polynomial identity, edge sets = admissible partners.", "Bounds: molecule list; weights in {0} u [1e-6,1e6]; all-zero admissible weights at a hand-over outside."),
 ]:
     CHECKS[_pid] = dict(text=_txt, note=_note, ref=f"DESIGN.md §4 {_pid}")
 
